@@ -96,6 +96,9 @@ OnR ==
                            THEN {m \in 1..(n-1) : sent[m].tag = sent[n].oldtag /\ replied[m] = 0 /\ m \notin away}
                            ELSE {} IN
        /\ ((cands = {}) => Verdict("C07", "reply-after-rflush", <<n, t, E.type>>))
+       \* C04: the destruction of a fid is reported no later than the reply that invalidates it
+       /\ (((t = "Tclunk" /\ E.type = "Rclunk") \/ t = "Tremove") /\ sent[n].fid \in live
+              => Verdict("C04", "reply-before-destroy", <<n, t, E.type>>))
        /\ (~okType => Verdict("C03", "wrong-reply-type", <<n, t, E.type>>))
        /\ ((okType /\ ~okPayload) => Verdict("C03", "foreign-payload", <<n, t, E.type, E.payload>>))
        /\ ((okType /\ okPayload /\ ~okSource) => Verdict("C03", "reply-not-from-implementation", <<n, t, E.type>>))
@@ -157,7 +160,7 @@ OnQuiet ==
   /\ ~cclosed =>
        \A n \in 1..N :
          (replied[n] = 0 /\ ~WaitsLegitimately(n)) =>
-            IF IsFlush(n) THEN Verdict("C07", "flush-unanswered", <<n, sent[n].oldtag>>)
+            IF IsFlush(n) THEN Verdict("C07", "flush-unanswered", <<n, sent[n].oldtag>>) /\ Verdict("C03", "unanswered", <<n, sent[n].type>>)
             ELSE IF Held # {} THEN Verdict("C08", "delayed-by-held", <<n, sent[n].type, Held>>)
             ELSE Verdict("C03", "unanswered", <<n, sent[n].type>>)
   /\ UNCHANGED <<sent, replied, away, answers, called, answeredN, live, maybe, nclosed, cclosed>>
